@@ -152,7 +152,7 @@ Section Partition.
   Variable it : iter.
   Variable d : list entry.
   Variables pk ch : bytes.
-  Variable norm : bytes -> option bytes.     (* opts.normalizeBucket; None = the Go code panics *)
+  Variable norm : bytes -> option bytes.     (* opts.normalizeBucket; None = a normaliser that panics (none of charts()'s does) *)
 
   (* the inner loop over the configured buckets, for one week; None = panic *)
   Fixpoint bucket_loop (wk : bytes) (buckets seen : list bytes) (m : merged_t) (empty : bool)
@@ -220,25 +220,22 @@ Definition cut_int (x : bytes) : option (bytes * bytes) :=
 Definition go_b : bytes := ([103%N; 111%N] (* "go" *)).
 Definition dot_b : bytes := [46%N].
 
-(* goMajorMinor: None where the Go code panics (v[2:] with len v < 2, x[1:] with x empty) *)
-Definition go_major_minor (v : bytes) : option bytes :=
-  if Nat.ltb (length v) 2 then None else
+(* goMajorMinor (after fix 48ba0d4: "" for a string shorter than two bytes and
+   for goN with nothing after the major number, where it used to panic) *)
+Definition go_major_minor (v : bytes) : bytes :=
+  if Nat.ltb (length v) 2 then [] else
   match cut_int (skipn 2 v) with
-  | None => Some []
+  | None => []
   | Some (maj, x) =>
       match x with
-      | [] => None
+      | [] => []
       | _ :: x' =>
           match cut_int x' with
-          | None => Some []
-          | Some (mn, _) => Some (go_b ++ maj ++ dot_b ++ mn)
+          | None => []
+          | Some (mn, _) => go_b ++ maj ++ dot_b ++ mn
           end
       end
   end.
-
-(* the known-finding class: a configured Go version on which goMajorMinor panics *)
-Definition malformed_goversion (v : bytes) : bool :=
-  match go_major_minor v with None => true | Some _ => false end.
 
 (* internal/config.Expand *)
 Definition expand (counter : bytes) : list bytes :=
@@ -277,7 +274,7 @@ Section Charts.
      else [mkReq c_versionCounter (pc_versions p) true Some lt_semver])
     ++ [ mkReq c_goosCounter (cf_goos cfg) false Some bltb;
          mkReq c_goarchCounter (cf_goarch cfg) false Some bltb;
-         mkReq c_goversionCounter (cf_goversion cfg) true go_major_minor lt_gover ]
+         mkReq c_goversionCounter (cf_goversion cfg) true (fun v => Some (go_major_minor v)) lt_gover ]
     ++ map counter_req (pc_counters p).
 
   Definition run_req (d : list entry) (pk : bytes) (q : preq) : option (option chart) :=
@@ -437,9 +434,6 @@ Fixpoint programs_ok lt_semver lt_gover (cfg : config) (reports : list report)
       && programs_ok lt_semver lt_gover cfg reports ps' os'
   | _, _ => false
   end.
-
-Definition config_wellformed (cfg : config) : bool :=
-  forallb (fun v => negb (malformed_goversion v)) (cf_goversion cfg).
 
 (* chart_ok cfg reports chart *)
 Definition chart_ok lt_semver lt_gover (cfg : config) (start end_ : bytes) (reports : list report)
